@@ -186,7 +186,7 @@ class World:
     def __init__(self, kind: str, db: Database, bulk_policy: Optional[BulkPolicy] = None,
                  clock: Optional[Callable[[], int]] = None, boots: int = 7,
                  context_name: bytes = b"", engine_id: bytes = b"", pin_ids: bool = True,
-                 credentials: Any = None) -> None:
+                 credentials: Any = None, agent_engine_id: Optional[bytes] = None) -> None:
         import warnings
         warnings.simplefilter("ignore")
         from puresnmp.api.raw import Client
@@ -204,7 +204,7 @@ class World:
         self.engine_cipher.counter = 1000
         if version == 3:
             users = [u._replace(cipher=self.engine_cipher) for u in USERS.values()]
-            self.engine = rusm.Engine(self.agent, ENGINE_ID, users, boots=boots, clock=clock or (lambda: 1000))
+            self.engine = rusm.Engine(self.agent, agent_engine_id or ENGINE_ID, users, boots=boots, clock=clock or (lambda: 1000))
             if "priv" in kind:
                 install_priv_plugin(self.cipher)
         self.exchanges: List[Tuple[bytes, bytes]] = []
